@@ -31,3 +31,5 @@ End C11.
 Print Assumptions C11_spectral_units.
 Print Assumptions C11_M2_single_segment.
 Print Assumptions C11_M2_nonneg.
+Print Assumptions C11_emp_var.
+Print Assumptions C11_M2_no_segment.
